@@ -12,7 +12,9 @@ import excs
 excs._cache[(0, 16)] = Warning
 excs._cache[(0, 16, 0)] = DeprecationWarning
 
-NAMES = ['self', 'p0', 'p1', 'p2', 'p3', 'q0', 'q1', 'q2', 'x0', 'x1', 'x2', 'old0', 'old1', 'old2', 'cls']
+NAMES = ['self', 'p0', 'p1', 'p2', 'p3', 'q0', 'q1', 'q2', 'x0', 'x1', 'x2', 'old0', 'old1', 'old2', 'cls',
+         'func', 'args', 'kwargs', 'wrapper', 'f', 'result', 'value', 'other', 'k', 'v', 'return_value', 'decorated_func',
+         'call', 'original_result', 'other_func', 'start_time', 'async_wrapper', 'param_dict', 'result_kwargs']
 FILTERS = ['always', 'default', 'error', 'ignore', 'once', 'module']
 _counter = [0]
 
@@ -148,14 +150,14 @@ def render(case, decorated):
     """module source for a stack case"""
     src = ''
     stack = case['stack']
-    for i, l in enumerate(stack):
+    for i, l in list(enumerate(stack)) + [(100 + i, l) for i, l in enumerate(case.get('redeco', []))]:
         if l['d'] == 'overrides':
             own = '    def f(self):\n        pass\n'
             if l.get('dir', True) == 'inherited':      # the name comes from a grandparent
                 src += f'class GrandBase{i}:\n{own}class Base{i}(GrandBase{i}):\n    pass\n'
             else:
                 src += f'class Base{i}:\n' + (own if l.get('dir', True) else '    pass\n')
-    if any(l['d'] == 'does_same_as_function' for l in stack):
+    if any(l['d'] == 'does_same_as_function' for l in stack + case.get('redeco', [])):
         o = case['other']
         src += fn_src('other', o['sig'], o['async'], 1, dflt_base=60)
     ind = ''
@@ -195,21 +197,33 @@ def path_or_fresh(ex):
     return enc_exn(excs.path_of(type(ex)))
 
 
+def count_wrappers(top):
+    """the count_calls wrapper objects under `top`, outermost first"""
+    out, o, seen = [], top, 0
+    while o is not None and seen < 50:
+        code = getattr(o, '__code__', None)
+        if code is not None and code.co_filename.endswith('fn_deco_count_calls.py') and hasattr(o, 'num_calls'):
+            out.append(o)
+        o = getattr(o, '__wrapped__', None)
+        seen += 1
+    return out
+
+
 def run_stack(case):
     import pedantic.decorators as pd
     w = World()
     res = {}
+    redeco = case.get('redeco', [])
     for decorated in (False, True):
         events, journal = [], []
-        holder = {}
+        holder = {'ccs': []}
         scripts = {0: (case['outs'], case['tail']), 1: (case.get('other', {}).get('outs', []), case.get('other', {}).get('tail', ['ret', None]))}
         counts = {0: 0, 1: 0}
 
         def RT(cid, bound, va, vk):
             i = counts[cid]
             counts[cid] += 1
-            cc = holder.get('cc')
-            journal.append([cid, len(events), cc.num_calls if cc is not None else 0,
+            journal.append([cid, len(events), [c.num_calls for c in holder['ccs']],
                             [[NAMES.index(n), w.enc(v)] for n, v in bound.items()], [w.enc(v) for v in va],
                             [[NAMES.index(n) if n in NAMES else 99, w.enc(v)] for n, v in vk.items()]])
             outs, tail = scripts[cid]
@@ -223,44 +237,45 @@ def run_stack(case):
                 w.reg(ex, [7, (1000 if cid else 0) + i])
             raise w.tok[key]
 
+        levels = dict(enumerate(case['stack']))
+        levels.update({100 + i: l for i, l in enumerate(redeco)})
         ns = {'__name__': 'pvgen', 'RT': RT, 'YIELD': Yield, 'DFLT': {i: w.T(i) for i in range(60, 100)},
-              'RV': {i: w.T(l.get('rv')) for i, l in enumerate(case['stack'])},
-              'RULES': {i: [pd.Rename(from_=a, to=b) for a, b in l.get('rules', [])] for i, l in enumerate(case['stack'])}}
+              'RV': {i: w.T(l.get('rv')) for i, l in levels.items()},
+              'RULES': {i: [pd.Rename(from_=a, to=b) for a, b in l.get('rules', [])] for i, l in levels.items()}}
         for n in ('trace', 'timer', 'count_calls', 'deprecated', 'require_kwargs', 'unimplemented', 'trace_if_returns', 'mock',
                   'does_same_as_function', 'rename_kwargs', 'overrides'):
             ns[n] = getattr(pd, n)
+
+        def apply_by_call(lv, base):
+            obj = ns['K'].__dict__['f'] if case.get('method') else ns['f']
+            for i in reversed(range(len(lv))):
+                obj = make_deco(lv[i], base + i, ns)(obj)
+            if case.get('method'):
+                setattr(ns['K'], 'f', obj)
+            else:
+                ns['f'] = obj
         try:
             load(render(case, decorated), ns)
             if decorated and case.get('apply', '@') == 'call':      # f = d1(d2(f)), no decorator lines in the source
-                obj = ns['K'].__dict__['f'] if case.get('method') else ns['f']
-                for i in reversed(range(len(case['stack']))):
-                    obj = make_deco(case['stack'][i], i, ns)(obj)
-                if case.get('method'):
-                    setattr(ns['K'], 'f', obj)
-                else:
-                    ns['f'] = obj
+                apply_by_call(case['stack'], 0)
         except BaseException as ex:
             res['dec' if decorated else 'twin'] = {'deco_error': path_or_fresh(ex), 'deco_error_repr': repr(ex)[:200]}
             continue
+        inst = None
         if case.get('method'):
-            obj = ns['K']()
-            w.reg(obj, [0, 50])
-            fn = obj.f
-            raw = ns['K'].__dict__['f']
-        else:
-            fn = raw = ns['f']
+            inst = ns['K']()
+            w.reg(inst, [0, 50])
+
+        def current():
+            return (getattr(inst, 'f'), ns['K'].__dict__['f']) if inst is not None else (ns['f'], ns['f'])
+        fn, raw = current()
         inner = inspect.unwrap(raw)
         codes = {inner.__code__: 0}
         if 'other' in ns:
             codes[inspect.unwrap(ns['other']).__code__] = 1
-        # the count_calls level
-        o = raw
-        while o is not None:
-            if hasattr(o, 'num_calls') and o.__code__.co_filename.endswith('fn_deco_count_calls.py'):
-                holder['cc'] = o
-                break
-            o = getattr(o, '__wrapped__', None)
+        holder['ccs'] = count_wrappers(raw)
         results, cnts = [], []
+        out = {}
         old_out = sys.stdout
         with warnings.catch_warnings():
             warnings.simplefilter(case.get('filter', 'default'), DeprecationWarning)
@@ -272,29 +287,38 @@ def run_stack(case):
             warnings.showwarning = show
             sys.stdout = Out(events)
             try:
-                for c in case['calls']:
-                    a = [w.T(x) for x in c['a']]
-                    k = {n: w.T(x) for n, x in c['k']}
-                    results.append(result_of(w, (lambda: fn(*a, **k)), case['async'], codes))
-                    cc = holder.get('cc')
-                    cnts.append(cc.num_calls if cc is not None else 0)
+                for phase, calls in ((1, case['calls']), (2, case.get('calls2', []))):
+                    if phase == 2:
+                        if not redeco and not calls:
+                            break
+                        if decorated:
+                            if 'twin_fn' in res:
+                                out['meta'] = meta_of(raw, res['twin_fn'])
+                            # decoration as an operation inside the history: wrap the used callable again
+                            apply_by_call(redeco, 100)
+                            fn, raw = current()
+                            holder['ccs'] = count_wrappers(raw)
+                    for c in calls:
+                        a = [w.T(x) for x in c['a']]
+                        k = {n: w.T(x) for n, x in c['k']}
+                        results.append(result_of(w, (lambda: fn(*a, **k)), case['async'], codes))
+                        cnts.append([c2.num_calls for c2 in holder['ccs']])
+            except BaseException as ex:      # the second decoration raised
+                out['redeco_error'] = repr(ex)[:200]
             finally:
                 sys.stdout = old_out
             flt = [f[0] for f in warnings.filters if f[2] is DeprecationWarning and f[1] is None]
             flt_after = FILTERS.index(flt[0]) if flt and flt[0] in FILTERS else -1
-        out = {'results': results, 'counts': cnts, 'journal': journal, 'events': events, 'filter_after': flt_after}
+        out.update({'results': results, 'counts': cnts, 'journal': journal, 'events': events, 'filter_after': flt_after})
         if decorated:
             t = res.get('twin_fn')
             if t is not None:
-                out['meta'] = meta_of(raw, t)
+                out['meta2'] = meta_of(raw, t)
+                out.setdefault('meta', out['meta2'])
         else:
             res['twin_fn'] = raw
         res['dec' if decorated else 'twin'] = out
     res.pop('twin_fn', None)
-    # instance codes of scripted exceptions: [7, n] -> n
-    for side in ('twin', 'dec'):
-        for r in res.get(side, {}).get('results', []):
-            pass
     return res
 
 
